@@ -363,6 +363,46 @@ func tightHarness(kind string, up bool, bound int) harness {
 	}}
 }
 
+// flatHarness (H3f): the schedule changes from a flat one (every price 1000) to one in which the
+// function prices and one per-byte price moved while the other per-byte prices stayed: the
+// execution must be charged wholly by the old or wholly by the new schedule, each measured on a
+// container built directly under it.
+func flatHarness(kind, dev string, bound int) harness {
+	name := "H3f:" + kind + ":" + dev
+	return harness{name: name, bound: bound, build: func() ([]func(), func(*vsched.Result) (string, *violation)) {
+		old, nw := bodies.FlatSchedule(1000, "", 0), bodies.FlatSchedule(1000, dev, 4000)
+		l := bodies.NewLiteOn(old)
+		var res bodies.ExecResult
+		bs := []func(){
+			func() { res = bodies.Exec(l, kind) },
+			func() { l.Factory.GasScheduleChange(nw) },
+		}
+		return bs, func(r *vsched.Result) (string, *violation) {
+			k1, k2 := "flat/"+kind, "flat/"+kind+"/"+dev
+			if _, ok := refOutCache[k1]; !ok {
+				refOutCache[k1] = bodies.Exec(bodies.NewLiteOn(old), kind)
+			}
+			if _, ok := refOutCache[k2]; !ok {
+				refOutCache[k2] = bodies.Exec(bodies.NewLiteOn(nw), kind)
+			}
+			r1, r2 := refOutCache[k1], refOutCache[k2]
+			// after the run the change has been delivered completely: a further execution must be
+			// charged wholly by the new schedule
+			after := bodies.Exec(l, kind)
+			if !after.Same(r2) {
+				return "violation", &violation{"mixed-charge", "after-change:" + kind, fmt.Sprintf("%s executed after a completed schedule change (flat 1000 -> function prices and %s 5000) consumed %d gas; a container built under the new schedule consumes %d, under the old one %d", kind, dev, after.Consumed, r2.Consumed, r1.Consumed)}
+			}
+			switch {
+			case res.Same(r1):
+				return "flat:charged-by-old", nil
+			case res.Same(r2):
+				return "flat:charged-by-new", nil
+			}
+			return "violation", &violation{"mixed-charge", "flat:" + kind, fmt.Sprintf("%s overlapping the change flat 1000 -> (function prices and %s 5000) consumed %d gas: neither %d (old) nor %d (new)", kind, dev, res.Consumed, r1.Consumed, r2.Consumed)}
+		}
+	}}
+}
+
 var refOutCache = map[string]bodies.ExecResult{}
 
 func refOutcome(kind string, base, gas uint64) bodies.ExecResult {
@@ -545,6 +585,11 @@ func allHarnesses(tier checks.Tier) []harness {
 		if thorough {
 			hs = append(hs, tightHarness(k, false, bound))
 		}
+	}
+	// H3f: flat schedules
+	for _, kd := range [][2]string{{"SaveKeyValue", "PersistPerByte"}, {"SaveKeyValue", "StorePerByte"}, {"ESDTNFTCreate", "StorePerByte"}, {"ESDTNFTAddURI", "StorePerByte"},
+		{"ESDTNFTUpdateAttributes", "StorePerByte"}, {"ESDTNFTTransfer", "DataCopyPerByte"}, {"MultiESDTNFTTransfer", "DataCopyPerByte"}, {"ESDTTransfer", "DataCopyPerByte"}} {
+		hs = append(hs, flatHarness(kd[0], kd[1], 2))
 	}
 	// H5: every kind against itself on another token (the same function object), and mixed pairs
 	for _, k := range bodies.ExecKinds {
